@@ -318,6 +318,23 @@ func (e *Evaluator) step(vals map[ssa.Value]Val, v ssa.Value, pred *ssa.BasicBlo
 		return binop(x.Op, a, b, x.X.Type(), x.Type())
 	case *ssa.UnOp:
 		if x.Op == token.MUL {
+			// element of a package-level array literal with a known index
+			if ia, isIA := x.X.(*ssa.IndexAddr); isIA {
+				if g, isG := ia.X.(*ssa.Global); isG {
+					if k := e.get(vals, ia.Index); k.K == Const && k.C.Kind() == constant.Int {
+						if tbl, ok := GlobalArray(g); ok {
+							if i, exact := constant.Int64Val(k.C); exact {
+								if v, has := tbl[i]; has {
+									return v
+								}
+								if at, isArr := g.Type().(*types.Pointer).Elem().Underlying().(*types.Array); isArr && i >= 0 && i < at.Len() {
+									return zeroVal(at.Elem())
+								}
+							}
+						}
+					}
+				}
+			}
 			if fa, isFA := x.X.(*ssa.FieldAddr); isFA {
 				if base := e.get(vals, fa.X); base.Fields != nil {
 					if fv, ok := base.Fields[fa.Field]; ok {
@@ -1049,4 +1066,71 @@ func structLiteral(v ssa.Value) Val {
 		}
 	}
 	return out
+}
+
+var globalArrays = map[*ssa.Global]map[int64]Val{}
+var globalArraysOK = map[*ssa.Global]bool{}
+
+// GlobalArray reads a package-level array literal `var g = [...]T{c0, c1, …}`
+// from the package initialiser (element stores with constant index and
+// constant value); ok is false when the array is written anywhere else.
+func GlobalArray(g *ssa.Global) (map[int64]Val, bool) {
+	if t, done := globalArrays[g]; done {
+		return t, globalArraysOK[g]
+	}
+	globalArrays[g] = nil
+	if g.Pkg == nil {
+		return nil, false
+	}
+	if _, isArr := g.Type().(*types.Pointer).Elem().Underlying().(*types.Array); !isArr {
+		return nil, false
+	}
+	init := g.Pkg.Func("init")
+	tbl := map[int64]Val{}
+	ok := init != nil
+	for _, mem := range g.Pkg.Members {
+		fn, isFn := mem.(*ssa.Function)
+		if !isFn {
+			continue
+		}
+		fns := append([]*ssa.Function{fn}, fn.AnonFuncs...)
+		for _, f := range fns {
+			for _, b := range f.Blocks {
+				for _, ins := range b.Instrs {
+					ia, isIA := ins.(*ssa.IndexAddr)
+					if !isIA || ia.X != ssa.Value(g) {
+						if st, isSt := ins.(*ssa.Store); isSt && st.Addr == ssa.Value(g) && f != init {
+							ok = false
+						}
+						continue
+					}
+					for _, ref := range *ia.Referrers() {
+						st, isSt := ref.(*ssa.Store)
+						if !isSt || st.Addr != ssa.Value(ia) {
+							continue
+						}
+						if f != init {
+							ok = false
+							continue
+						}
+						k, isK := ia.Index.(*ssa.Const)
+						c, isC := st.Val.(*ssa.Const)
+						if !isK || !isC || k.Value == nil {
+							ok = false
+							continue
+						}
+						i, _ := constant.Int64Val(k.Value)
+						if c.Value == nil {
+							tbl[i] = Val{K: Nil}
+						} else {
+							tbl[i] = Val{K: Const, C: c.Value}
+						}
+					}
+				}
+			}
+		}
+	}
+	globalArrays[g] = tbl
+	globalArraysOK[g] = ok
+	return tbl, ok
 }
